@@ -21,6 +21,9 @@ type c16Dlv struct {
 	altered  bool // not an honest delivery
 	name     string
 	supplied []byte // detached / digest-only: what the verifier supplies instead of the ledger value
+	// viaDetach: an ATTACHED message reaches a verifier that vouches for data of its own (detached-style call:
+	// cfca.VerifyMessageDetach, or pkcs7 with Content overridden); the embedded content must not stand in for it
+	viaDetach bool
 }
 
 type c16Res struct {
@@ -273,6 +276,10 @@ func (x *c16X) buildFault(m *c16Msg, f, a, b, cc int, extra []byte) *c16Dlv {
 		differs := !bytes.Equal(other, ledger)
 		if m.detached {
 			return &c16Dlv{data: der, altered: differs, name: name, supplied: append([]byte{}, other...)}
+		}
+		if !m.asDigest && cc&3 == 1 && differs {
+			// the blob keeps its embedded content; the verifier checks it against data of its own
+			return &c16Dlv{data: der, altered: differs, name: name + "-by-detached-verifier", supplied: append([]byte{}, other...), viaDetach: true}
 		}
 		tc, ok := c16AttachedContent(body)
 		if !ok {
@@ -581,7 +588,7 @@ func (x *c16X) judgeSigned(m *c16Msg, d *c16Dlv, vmode int) c16Res {
 		x.fail("content-mismatch", "parsed content of an unaltered attached SignedData differs from the signed content at %d (%d vs %d bytes)", firstDiff(p7.Content, m.content), len(p7.Content), len(m.content))
 		return c16Res{}
 	}
-	if m.detached {
+	if m.detached || d.viaDetach {
 		p7.Content = supplied
 	}
 	if !m.hasCerts {
@@ -607,7 +614,7 @@ func (x *c16X) judgeSigned(m *c16Msg, d *c16Dlv, vmode int) c16Res {
 		verr = p7.VerifyAsDigestWithChain(w.pool)
 	case m.asDigest:
 		verr = p7.VerifyAsDigest()
-	case vmode == 3 && m.detached:
+	case vmode == 3 && (m.detached || d.viaDetach):
 		verr = cfca.VerifyMessageDetach(d.data, supplied)
 	case vmode == 3:
 		verr = cfca.VerifyMessageAttach(d.data)
